@@ -427,6 +427,9 @@ impl<'a> FaultDb<'a> {
         }
         if self.panic_at.get() == Some(n) {
             self.panic_at.set(None);
+            if std::env::var_os("VERIF_BT").is_some() {
+                eprintln!("[injected fault at call {}]\n{}", n, std::backtrace::Backtrace::force_capture());
+            }
             std::panic::panic_any(format!("{} at call {} ({})", INJECT_PAYLOAD, n, what));
         }
         if n > self.budget.get() {
